@@ -328,6 +328,19 @@ Definition subtree_conflict (m : mdib) (t : tx) : bool :=
                     | None => false
                     end) (t_d t).
 
+(* ... and a transaction that creates a descriptor whose parent neither exists nor is created by the same
+   transaction (every descriptor except a root has an existing parent): ApiUsageError, nothing changed *)
+Definition orphan_create (m : mdib) (t : tx) : bool :=
+  let cr := map fst (filter (is_create m) (t_d t)) in
+  existsb (fun e => is_create m e &&
+                    match snd e with
+                    | Some d => match d_parent d with
+                                | Some p => negb (memz p cr) && match descrs m p with Some _ => false | None => true end
+                                | None => false
+                                end
+                    | None => false
+                    end) (t_d t).
+
 Definition commit_descr (m : mdib) (t : tx) : mdib :=
   match t_d t with
   | [] => m
@@ -389,7 +402,7 @@ Definition transaction (k : Z) (abort : option nat) (acts : list action) (m : md
   | Ok t =>
       match abort with
       | Some _ => (m, 4)
-      | None => if Z.eqb k 6 then (if subtree_conflict m t then (m, 3) else (commit_descr m t, 0))
+      | None => if Z.eqb k 6 then (if subtree_conflict m t || orphan_create m t then (m, 3) else (commit_descr m t, 0))
                 else (commit_states m t, 0)
       end
   end.
